@@ -309,7 +309,9 @@ class Shape:
                     self.bind(p, UNK, env)
         elif k == "Struct":
             for f in pat["fields"]:
-                if isinstance(v, tuple) and v[0] == "obj" and not v[1].startswith("ctor:"):
+                if isinstance(v, tuple) and v[0] == "rec" and f["n"] in v[1]:
+                    self.bind(f["p"], v[1][f["n"]], env)
+                elif isinstance(v, tuple) and v[0] == "obj" and not v[1].startswith("ctor:"):
                     self.bind(f["p"], ("obj", "%s.%s" % (v[1], f["n"])), env)
                 else:
                     self.bind(f["p"], UNK, env)
@@ -458,6 +460,8 @@ class Shape:
         b = self.ev(n["e"], env, body)
         if isinstance(b, tuple) and b[0] == "tuple" and n["name"].isdigit() and int(n["name"]) < len(b[1]):
             return b[1][int(n["name"])]
+        if isinstance(b, tuple) and b[0] == "rec" and n["name"] in b[1]:
+            return b[1][n["name"]]
         if isinstance(b, tuple) and b[0] == "regrow" and n["name"] in b[1]:
             v = b[1][n["name"]]
             return ("int", v, "G") if isinstance(v, int) else ("str", v) if n["name"] == "name" else ("path", v)
@@ -483,12 +487,18 @@ class Shape:
         return UNK
 
     def ev_Struct(self, n, env, body):
+        # a record of the values given to its fields (a private struct that merely carries intermediate values behaves like
+        # the tuple or the locals it replaced)
+        vals = {}
         for f in n["fields"]:
-            self.ev(f["e"], env, body)
-        return ("obj", self.key("struct"))
+            vals[f["n"]] = self.ev(f["e"], env, body)
+        if "base" in n or not vals:
+            return ("obj", self.key("struct"))
+        return ("rec", vals, self.key("struct"))
 
     def ev_Closure(self, n, env, body):
-        return ("closure", n, env, body)
+        # a closure's code belongs to the function it is written in, whoever calls it
+        return ("closure", n, env, body, self.cur_fn)
 
     def ev_Ret(self, n, env, body):
         raise Ret(self.ev(n["e"], env, body) if "e" in n else ("unit",))
@@ -597,6 +607,8 @@ class Shape:
             if len(ids) <= 6 and all(":" in i or i.startswith("X86_REG_") for i in ids):
                 return ("reg", vals[0][1], vals[0][2] if same_row else None, "|".join(ids))
             return ("reg", vals[0][1], None, self.key("reg"))
+        if all(isinstance(v, tuple) and v[0] == "rec" for v in vals) and len({tuple(sorted(v[1])) for v in vals}) == 1:
+            return ("rec", {f_: self.join([v[1][f_] for v in vals]) for f_ in vals[0][1]}, self.key("struct"))
         if all(isinstance(v, tuple) and v[0] == "tuple" for v in vals) and len({len(v[1]) for v in vals}) == 1:
             return ("tuple", [self.join([v[1][i] for v in vals]) for i in range(len(vals[0][1]))])
         # enum values of one local type: unit variants carry nothing, the others are merged per variant
@@ -721,7 +733,7 @@ class Shape:
                 arms = feas
         for i, a in enumerate(arms):
             e1 = dict(env)
-            structured = isinstance(sv, tuple) and (sv[0] == "tuple" or (sv[0] in ("obj", "ctor") and not str(sv[1]).startswith("ctor:")))
+            structured = isinstance(sv, tuple) and (sv[0] in ("tuple", "rec") or (sv[0] in ("obj", "ctor") and not str(sv[1]).startswith("ctor:")))
             self.bind(a["pat"], sv if self.transparent(a["pat"]) or structured else UNK, e1)
             saved_assume = dict(self.assume)
             # width refinement: `match x.bits() { 16 => .. }`
@@ -924,14 +936,19 @@ class Shape:
 
     def apply(self, f, args):
         if isinstance(f, tuple) and f[0] == "closure":
-            _, node, cenv, cbody = f
+            _, node, cenv, cbody = f[:4]
             e1 = dict(cenv)
             for p, a in zip(node["params"], args):
                 self.bind(p, a, e1)
+            saved_fn = self.cur_fn
+            if len(f) > 4 and f[4]:
+                self.cur_fn = f[4]
             try:
                 return self.ev(node["body"], e1, cbody)
             except Ret as r:
                 return r.v
+            finally:
+                self.cur_fn = saved_fn
         return UNK
 
     def call(self, d, args, n, body, method=None):
